@@ -94,6 +94,22 @@ def cases(ctx, n, thorough):
         type_ = rng.choice([3, 4, 5]) if kind == "protein" else rng.choice([0, 1, 2, 5])
         type_ = gen.fit_type(type_, kind, recs)
         api = rng.choice(["file", "arr"])
+        if i % 6 == 1:
+            # short fragments of much longer sequences: the final rows of the fragments carry leading / trailing / internal gap runs of 64+ columns
+            alpha_ = gen.AA if kind == "protein" else (gen.RNA if kind == "rna" else gen.DNA)
+            Lf = rng.choice([200, 300, 420])
+            fullf = gen.family(rng, kind, rng.randint(2, 4), Lf, sub=0.1, indel=0.02, spice=False)
+            recs = list(fullf)
+            for _ in range(rng.randint(2, 4)):
+                src_ = rng.choice(fullf)[1]
+                a0 = rng.randint(70, max(71, len(src_) - 100))
+                frag_ = src_[a0:a0 + rng.randint(40, 90)]
+                if rng.random() < 0.4 and len(src_) > a0 + 200:
+                    frag_ = frag_[:20] + src_[a0 + 120:a0 + 160]          # a fragment with an internal deletion of ~100 residues
+                recs.append(("frag%d" % len(recs), gen.mutate(rng, frag_, alpha_, 0.05, 0.0)))
+            rng.shuffle(recs)
+            recs = [("q%d_%s" % (k, n_), q_) for k, (n_, q_) in enumerate(recs) if q_]
+            type_ = gen.fit_type(5, kind, recs)
         if i % 6 == 4 and len(recs) >= 4:
             # records without residues in between (the library drops them and renumbers the rest; member lists must follow)
             for _ in range(rng.randint(1, 3)):
